@@ -26,7 +26,7 @@ PROBES = [(n, k) for n in NAMES for k in range(4)]
 
 def plan(tier, seed):
     if tier == 'quick':
-        return {'n': 12000, 'deadline': 150,
+        return {'n': 9000, 'deadline': 150,
                 'floor': {'distinct_nontrivial': 1500, 'loads_overwrite': 4000, 'loads_combine': 4000, 'registers': 2000,
                           'variadic_registers': 500, 'failing_loads': 1000, 'probe_sets_compared': 30000,
                           'keys_with_two_sources': 3000, 'scripts_with_cut': 2000}}
